@@ -20,7 +20,7 @@ func C10(r *core.Run) {
 		"(R10.2) every bolt bucket lookup/creation/deletion by a request-supplied name is dominated by a rejecting comparison with the internal bookkeeping bucket name; " +
 		"(R10.3) every SingleBucketBackend method rejects other bucket names before touching the filesystem; (R10.4) every object-level method of MultiBucketBackend first establishes that the bucket directory exists; " +
 		"(R10.5) the metadata file name contains a hash over the unmodified key (distinct keys ⇒ distinct metadata files); (R10.6) routing passes bucket and key to the handlers unchanged; " +
-		"(R10.7) recursive removal (RemoveAll) is applied only to bucket-level paths, never to a path built from an object key; (R10.8) every bolt record operation is keyed by exactly the addressed name. (R10.9) a bolt write keyed by a key parameter goes to the bucket parameter paired with it; (R10.10) the multi-bucket backend validates bucket names before using them as paths and a listing prefix directory is contained; (R10.11) a file the fs backends name themselves is only ever created exclusively — no internal name shadows a key; (R10.12) the keys of a multi-object delete reach the backend exactly as the request body named them; (R01.6/R01.9) stored metadata maps of other objects are never written."
+		"(R10.7) recursive removal (RemoveAll) is applied only to bucket-level paths, never to a path built from an object key; (R10.8) every bolt record operation is keyed by exactly the addressed name. (R10.9) a bolt write keyed by a key parameter goes to the bucket parameter paired with it; (R10.10) the multi-bucket backend validates bucket names before using them as paths and a listing prefix directory is contained; (R10.11) a file the fs backends name themselves is only ever created exclusively — no internal name shadows a key; (R10.12) the keys of a multi-object delete reach the backend exactly as the request body named them; (R01.6/R01.9) stored metadata maps of other objects are never written. (R16.3, shared) the host middlewares prepend the bucket to the path and change nothing else of it: no cleaning that lets a key leave its bucket."
 	r.NotDecided = "non-interference as a whole-store statement, percent-encoding, very long segments, what the OS does with odd names, keys that are path-prefixes of other keys on the fs backends (a/b vs a/b/c is refused by the OS, not by a rule)"
 	ctx := oblig.NewCtx(r.P)
 	rule101(r, ctx)
@@ -35,6 +35,7 @@ func C10(r *core.Run) {
 	rule1010(r)
 	rule1011(r)
 	rule1012(r)
+	rule163(r, hostMiddlewares(r))
 	rule016(r, "C10")
 	rule019(r)
 }
